@@ -37,7 +37,7 @@ structure Mix where
 deriving Repr, DecidableEq
 
 inductive Plan where
-  /-- `num_clusters == 0`: one draw from the prior `gamma.rvs(a, scale = 1/b)`, no floor -/
+  /-- `num_clusters == 0`: one draw from the prior `gamma.rvs(a, scale = 1/b)` -/
   | prior (shape scale : Rat)
   /-- the Escobar–West step -/
   | mix (m : Mix)
@@ -57,8 +57,9 @@ def plan (a b α : Rat) (K n : Nat) (L : Rat) (bern : Bool) : Option Plan :=
 /-- `1e-10` -/
 def floorVal : Rat := 1 / 10000000000
 
-/-- `new_value = max(new_value, 1e-10)` — applied on the mixture branch only -/
-def finish (K : Nat) (g : Rat) : Rat := if K = 0 then g else (if g < floorVal then floorVal else g)
+/-- `new_value = max(new_value, 1e-10)` — applied to the draw of either branch (after the repair
+"apply the concentration floor to the draw from the prior as well") -/
+def finish (g : Rat) : Rat := if g < floorVal then floorVal else g
 
 /-! ### `update_concentration_value`: K and n from the tree -/
 
